@@ -10,10 +10,10 @@
 EXTENDS USimProps, Json, IOUtils
 Batch == JsonDeserialize(IOEnv.TRACE_FILE)
 Real(i) == Batch.traces[i]
-NT == Len(Batch.traces)
+NTraces == Len(Batch.traces)
 VARIABLES tid, pos
 varsT == <<vars, tid, pos>>
-InitT == Init /\ tid \in 1..NT /\ pos = 0
+InitT == Init /\ tid \in 1..NTraces /\ pos = 0
 \* equality of a model event and a recorded event, evaluated so that TLC never compares values of different types
 RECURSIVE SameExc(_, _)
 SameExc(x, y) == IF x = <<>> \/ y = <<>> THEN x = <<>> /\ y = <<>>
